@@ -347,6 +347,13 @@ func Templates() []Template {
 			x = RandF32(rd, []int{b, cin, 6}, -2, 2)
 			k = RandF32(rw, []int{cout, cin, 3}, -1, 1)
 		}
+		if rw.Chance(1, 25) {
+			// an image-sized input (>= 2^16 elements): the sizes at which padding, im2col or tiling take other paths.
+			// One output channel and a 3x3 kernel keep the pure-Go convolution affordable (about 0.1 s per Run).
+			twoD, nsp, cin, cout = true, 2, 4, 1
+			x = RandF32(rd, []int{b, cin, 128, 128}, -2, 2)
+			k = RandF32(rw, []int{cout, cin, 3, 3}, -1, 1)
+		}
 		rep := func(v int64) []int64 {
 			o := make([]int64, nsp)
 			for i := range o {
@@ -370,11 +377,11 @@ func Templates() []Template {
 			attrs = append(attrs, mb.AI("group", 1))
 		}
 		if rw.Chance(1, 4) {
-			if twoD {
-				attrs = append(attrs, mb.AInts("kernel_shape", 2, 2))
-			} else {
-				attrs = append(attrs, mb.AInts("kernel_shape", 3))
+			var ks []int64
+			for _, d := range k.Shape[2:] {
+				ks = append(ks, int64(d))
 			}
+			attrs = append(attrs, mb.AInts("kernel_shape", ks...))
 		}
 		ops := []Operand{data(x, 0), weight(k)}
 		if rw.Chance(3, 4) {
